@@ -177,6 +177,9 @@ def information_weight(data, prior_strength=0.1, approximate_prior=False, target
         # tocsc() hands back the caller's own matrix; never sort it in place
         csc_data = data.copy()
     csc_data.sort_indices()
+    # the kernels look a row up by binary search and read a single entry:
+    # repeated entries of a non-canonical input must be merged first
+    csc_data.sum_duplicates()
 
     weights = column_weights(
         csc_data.indptr,
